@@ -9,6 +9,9 @@ import (
 	"context"
 	"fmt"
 	"sort"
+
+	"github.com/libp2p/go-libp2p-kad-dht/netsize"
+	ks "github.com/whyrusleeping/go-keyspace"
 	"testing"
 	"testing/synctest"
 	"time"
@@ -57,11 +60,11 @@ func c03Run(t *testing.T, r *vfRand, c *lkCase, w *wWorld, op int, withDeadline 
 		node.Seed(w.peers[j].id)
 	}
 	node.sender.reply = w.reply
-	if c03Ops[op] == "ProvideOptimistic" && r.Chance(85) {
+	if c03Ops[op] == "ProvideOptimistic" && (r.Chance(85) || c.fullKnowledge) {
 		// prime the network size estimator so that the optimistic path is taken; in half of the
 		// cases with the K nearest of a few hundred random ids, as a lookup in a large network
 		// would report them (then the seeds are not "very close" and get no early record)
-		large := r.Bool()
+		large := r.Bool() || c.fullKnowledge // the fixed scenario needs the large-network estimate
 		for x := 0; x < 8; x++ {
 			pk := fmt.Sprintf("prime-%d", x)
 			pool := c.k
@@ -153,6 +156,14 @@ func c03Run(t *testing.T, r *vfRand, c *lkCase, w *wWorld, op int, withDeadline 
 		}
 		i := 0
 		switch c.strategy {
+		case 5: // records stored early complete before the walk's own requests
+			i = r.Intn(len(pending))
+			for x := range pending {
+				if isAddProv(pending[x]) {
+					i = x
+					break
+				}
+			}
 		case 0:
 			i = r.Intn(len(pending))
 		case 1, 2:
@@ -188,12 +199,52 @@ func c03Run(t *testing.T, r *vfRand, c *lkCase, w *wWorld, op int, withDeadline 
 	return o
 }
 
+// c03ManyEarlyStores is a fixed scenario (run in every campaign): an optimistic provide in a
+// "large" network where most of the K nearest peers are individually close enough to get their
+// record early, while the walk's own requests are still unanswered.  More than returnThreshold
+// stores complete before anybody reads the completion channel.
+func c03ManyEarlyStores(r *vfRand) (*lkCase, *wWorld) {
+	c := &lkCase{k: 20, alpha: 10, beta: 3, target: -1, cancelAt: -1, strategy: 5, fullKnowledge: true}
+	c.key = string(wTestCid.Hash())
+	c.keyKad = simKad([]byte(c.key))
+	ksKey := ks.XORKeySpace.Key([]byte(c.key))
+	w := &wWorld{byID: map[peer.ID]int{}, key: c.key}
+	near, far := 0, 0
+	for near < 17 || far < 5 {
+		id := simPeerID(r)
+		d := netsize.NormedDistance(id, ksKey)
+		switch {
+		case d < 0.02 && near < 17:
+			near++
+		case d > 0.3 && far < 5:
+			far++
+		default:
+			continue
+		}
+		lp := lkPeer{id: id, kad: simKad([]byte(id)), naddr: 1, pass: true}
+		c.peers = append(c.peers, lp)
+	}
+	for j := range c.peers {
+		for x := range c.peers {
+			if x != j {
+				c.peers[j].closer = append(c.peers[j].closer, x)
+			}
+		}
+		c.rt = append(c.rt, j)
+		w.peers = append(w.peers, wPeer{lkPeer: c.peers[j], behaviour: wAnswer})
+		w.byID[c.peers[j].id] = j
+	}
+	return c, w
+}
+
 func TestVerifC03(t *testing.T) {
 	seed := vfSeed()
 	n := vfEnvInt("VERIF_N", 300)
 	only := vfOnly()
 	cs := vfNewCases("Run_C03", 500)
 	root := vfNewRand(seed)
+	vfStartWatchdog(45 * time.Second)
+	defer vfStopWatchdog()
 	for i := 0; i < n; i++ {
 		r := root.Fork()
 		if only >= 0 && i != only {
@@ -201,18 +252,28 @@ func TestVerifC03(t *testing.T) {
 		}
 		c, w := wGen(r, i)
 		op := i % len(c03Ops)
-		if r.Chance(30) {
+		scenario := ""
+		if i == 8 || i == 17 {
+			c, w = c03ManyEarlyStores(r)
+			op, scenario = 8, "many-early-stores"
+		}
+		if scenario != "" {
+		} else if r.Chance(30) {
 			c.cancelAt = r.Intn(3 * len(c.peers))
 		} else {
 			c.cancelAt = -1
 		}
-		if r.Chance(12) || (c03Ops[op] == "ProvideOptimistic" && r.Chance(30)) {
+		if scenario == "" && (r.Chance(12) || (c03Ops[op] == "ProvideOptimistic" && r.Chance(30))) {
 			// everything the node knows fails: the degenerate networks where waiting loops starve
 			for j := range w.peers {
 				w.peers[j].behaviour = wDialFail + r.Intn(2)
 			}
 		}
-		withDeadline := r.Chance(30)
+		if c03Ops[op] == "ProvideOptimistic" && r.Chance(50) {
+			c.strategy = 5
+		}
+		withDeadline := scenario == "" && r.Chance(30)
+		vfBeat(map[string]any{"case": i, "seed": seed, "op": c03Ops[op], "K": c.k, "npeers": len(c.peers), "scenario": scenario, "strategy": c.strategy, "cancelAt": c.cancelAt})
 		var o *c03Obs
 		leak := simBubble(t, func(t *testing.T) { o = c03Run(t, r.Fork(), c, w, op, withDeadline) })
 		if o == nil {
@@ -231,7 +292,7 @@ func TestVerifC03(t *testing.T) {
 		desc := map[string]any{"case": i, "seed": seed, "op": c03Ops[op], "K": c.k, "alpha": c.alpha, "beta": c.beta, "npeers": len(c.peers),
 			"failing": nfail, "slow": nslow, "cancelAt": c.cancelAt, "deadline": withDeadline, "strategy": c.strategy, "returned": o.returned,
 			"panic": o.panicked, "leak": o.leak, "err": o.err, "steps": o.steps, "virtual_s": o.virtual.Seconds(),
-			"after_cancel_s": o.afterCancel.Seconds(), "add_provider_total": o.addProvTotal, "add_provider_before_return": o.addProvBeforeReturn, "optimistic": o.optimistic}
+			"after_cancel_s": o.afterCancel.Seconds(), "scenario": scenario, "add_provider_total": o.addProvTotal, "add_provider_before_return": o.addProvBeforeReturn, "optimistic": o.optimistic}
 		sig := fmt.Sprintf("%s|c%v d%v|f%d s%d|opt%v|n%d", c03Ops[op], o.cancelled, withDeadline, minInt(nfail, 3), minInt(nslow, 2), o.optimistic, o.addProvTotal/4)
 		coq := fmt.Sprintf("{| c_op := %d; c_K := %d; c_optimistic := %s; c_cancelled := %s; c_deadline := %s; c_rpc_total := %d; c_rpc_before_return := %d;\n   i_returned := %s; i_panic := %s; i_leak := %s; i_closed := %s; i_prompt := %s |}",
 			op, c.k, vfBool(o.optimistic), vfBool(o.cancelled), vfBool(withDeadline), o.addProvTotal, o.addProvBeforeReturn,
